@@ -56,11 +56,16 @@ struct Layer {
     all_scalars: bool,
 }
 
-const LAYERS_QUICK: [Layer; 2] = [
+const LAYERS_QUICK: [Layer; 4] = [
     Layer { name: "items<=2", outer: 2, subs: &[], all_scalars: false },
     Layer { name: "items<=2 minus items<=1", outer: 2, subs: &[1], all_scalars: false },
+    Layer { name: "small: nested subtraction, depth 3", outer: 1, subs: &[1, 1], all_scalars: false },
+    Layer { name: "small: nested subtraction, depth 4", outer: 1, subs: &[1, 1, 1], all_scalars: false },
 ];
-const LAYERS_THOROUGH: [Layer; 6] = [
+const LAYERS_THOROUGH: [Layer; 9] = [
+    Layer { name: "small: nested subtraction, depth 3", outer: 1, subs: &[1, 1], all_scalars: false },
+    Layer { name: "small: nested subtraction, depth 4", outer: 1, subs: &[1, 1, 1], all_scalars: false },
+    Layer { name: "small: nested subtraction, depth 5", outer: 1, subs: &[1, 1, 1, 1], all_scalars: false },
     Layer { name: "items<=2", outer: 2, subs: &[], all_scalars: false },
     Layer { name: "items<=2 minus items<=1", outer: 2, subs: &[1], all_scalars: false },
     Layer { name: "items<=3", outer: 3, subs: &[], all_scalars: false },
@@ -76,7 +81,20 @@ fn layers(tier: Tier) -> &'static [Layer] {
     }
 }
 
+/// The "small" layers nest deeper over one item per group from a short list (optionally
+/// negated): what is subtracted from what must associate to the right at every depth.
+const SMALL_ITEMS: [&str; 4] = ["a-c", "c", "a", "\\d"];
+fn is_small(l: &Layer) -> bool {
+    l.name.starts_with("small:")
+}
+fn small_body(idx: u64) -> String {
+    format!("{}{}", if idx % 2 == 1 { "^" } else { "" }, SMALL_ITEMS[(idx / 2) as usize])
+}
+
 fn layer_count(l: &Layer) -> u64 {
+    if is_small(l) {
+        return (2 * SMALL_ITEMS.len() as u64).pow(1 + l.subs.len() as u32);
+    }
     let mut n = group_count(l.outer);
     for s in l.subs {
         n *= group_count(*s);
@@ -87,12 +105,13 @@ fn layer_count(l: &Layer) -> u64 {
 fn layer_text(l: &Layer, mut idx: u64) -> String {
     // mixed radix: innermost subtraction varies fastest
     let mut parts: Vec<String> = vec![];
+    let small = is_small(l);
     for s in l.subs.iter().rev() {
-        let c = group_count(*s);
-        parts.push(group_body(idx % c));
+        let c = if small { 2 * SMALL_ITEMS.len() as u64 } else { group_count(*s) };
+        parts.push(if small { small_body(idx % c) } else { group_body(idx % c) });
         idx /= c;
     }
-    parts.push(group_body(idx));
+    parts.push(if small { small_body(idx) } else { group_body(idx) });
     parts.reverse();
     // [outer-[sub1-[sub2]]]
     let mut t = String::new();
